@@ -21,6 +21,8 @@
 
 from __future__ import absolute_import
 
+import socket
+
 from gevent import Timeout
 
 from slimta.smtp.client import LmtpClient
@@ -35,7 +37,8 @@ class LmtpRelayClient(SmtpRelayClient):
     _client_class = LmtpClient
 
     def _ehlo(self):
-        assert self.ehlo_as is not None
+        if not self.ehlo_as:
+            self.ehlo_as = socket.getfqdn()
         try:
             ehlo_as = self.ehlo_as(self.address)  # type: ignore
         except TypeError:
